@@ -29,7 +29,11 @@ RULE = ('array cases = (record, container, dt, trap in {True,False}, call style)
         'calc_velo_and_disp_from_accel_arr / velocity_and_displacement_from_acceleration. Records: classes of DESIGN '
         'section 4 plus one-signed, constant, linear (closed forms), extreme at the first / last sample, plateau at '
         'the start / end, sign change before the last sample, large offset under a small signal, peak anywhere in '
-        '1e-12..1e12, one sample 1e3..1e16 times larger than the others (first / last / inside, optionally followed by '
+        '1e-12..1e12, EXTREME scales in float64 / list containers (gen.record(extreme=True): amplitude 1e+-165..1e+-220; '
+        'gen.special_scale: uniformly 1e-165..1e-300 or 1e155..1e300 - scaled down only as far as the double integral '
+        'times the relation factors needs to stay finite -, 1e-150 next to 1e150 in one record, ripple on a baseline, '
+        'counts above 2**24) and for every float64 / integer case the extra related record alpha*x with |alpha| = '
+        '1e+-165..1e+-200 (clause peak.scale|alpha|.extreme), one sample 1e3..1e16 times larger than the others (first / last / inside, optionally followed by '
         'its negative), quiet-but-not-silent lead-in with all the action in the last 1/k, constant with a single '
         'changed sample, alternating sign with an offset; n in [2,5000] incl. 2^k-1, 2^k, 2^k+1 and a few records of 65537..100000 samples per run. '
         'Containers: float64, float32, int64, int32, int16, int8, uint8, uint16 with ordinary magnitudes and '
@@ -87,6 +91,10 @@ ASSUMPTIONS = ['finite real 1-D record of length >= 2, dt > 0 (dt = 0, negative 
                'exceptions raised by mutators themselves (e.g. in-place baseline corrections on integer values, '
                'negative constants added to unsigned values) belong to other properties: counted, not judged; '
                'reads after them are still judged',
+               'results must be representable: cases with max|a|*max(1, n*dt, (n*dt)^2) >= 1e305 (1e37 for float32) are '
+               'counted, not judged (inf is then the right answer); integrals that fall into the subnormal range are '
+               'judged with the absolute floor of 4 smallest subnormals per rounding, magnified by |alpha| where a '
+               'relation multiplies them',
                'oracle vf/oracles/integrate.py (increment formulas, closed forms, reference integrals) is correct']
 MIN_EVALS = {
     'quick': {'array.no-exception': 41000, 'array.length': 41000, 'array.start==0': 41000, 'array.finite': 41000,
@@ -97,7 +105,7 @@ MIN_EVALS = {
               'array.exact.const': 90, 'array.exact.linear': 120,
               'calc_peak==max|x|': 46000, 'calc_peak.args-unchanged': 46000,
               'rel.sign': 2400, 'rel.scale.pow2': 2400, 'rel.linearity': 2400,
-              'peak.sign-invariant': 2500, 'peak.scale|alpha|': 4700,
+              'peak.sign-invariant': 2500, 'peak.scale|alpha|': 4700, 'peak.scale|alpha|.extreme': 2000,
               'obj.length': 41000, 'obj.finite': 41000, 'obj.start==0': 41000, 'obj.velocity.increments': 20000,
               'obj.displacement.increments': 20000, 'obj.displacement==integral(current values)': 20000,
               'obj.read-leaves-record-unchanged': 68000,
@@ -1101,7 +1109,7 @@ def _array_case(eqsig, ctx, case, held):
         Y, v2, d2, raw = out
         ev = float(np.max(np.abs(v2 - factor * v)))
         ed = float(np.max(np.abs(d2 - factor * d)))
-        fl = O.underflow_floor(epsx, n)      # (2^k scaling is not exact for operands in the subnormal range)
+        fl = O.underflow_floor(epsx, n) * max(1.0, abs(factor))      # (2^k scaling is not exact in the subnormal range)
         tv, td = 4 * epsx * abs(factor) * Vx + fl, 4 * epsx * abs(factor) * Dx + fl
         ctx.check(ev <= tv and ed <= td, clause, wit,
                   'series of (%r * record) differ from %r * series: max dv=%.3g (allowed %.3g) max dd=%.3g (allowed '
@@ -1129,6 +1137,8 @@ def _array_case(eqsig, ctx, case, held):
             f = abs(alpha)
             eps = epsx
             tv, td = _rel_tols(eps, n, dt, 2 * f * Vx, 2 * f * Ax, 2 * f * Dx)
+            tv += f * O.underflow_floor(eps, n)
+            td += f * O.underflow_floor(eps, n)
             okp = (abs(q_x - f * p_x) <= 4 * eps * f * p_x + O.underflow_floor(eps)
                    and abs(q_v - f * p_v) <= tv and abs(q_d - f * p_d) <= td)
             ctx.check(okp, 'peak.scale|alpha|', wit,
@@ -1150,6 +1160,10 @@ def _array_case(eqsig, ctx, case, held):
                 q_d = _peak(ctx, eqsig, r[1], case)
                 if q_v is not None and q_d is not None:
                     tv, td = _rel_tols(epsx, n, dt, 2 * f * Vx, 2 * f * Ax, 2 * f * Dx)
+                    # peaks of the unscaled record that lie in the subnormal range carry an ABSOLUTE rounding error,
+                    # which the comparison magnifies by |alpha|
+                    tv += f * O.underflow_floor(epsx, n)
+                    td += f * O.underflow_floor(epsx, n)
                     okp = (abs(q_x - f * p_x) <= 4 * epsx * f * p_x and abs(q_v - f * p_v) <= tv
                            and abs(q_d - f * p_d) <= td)
                     ctx.check(okp, 'peak.scale|alpha|.extreme', wit,
@@ -1168,6 +1182,8 @@ def _array_case(eqsig, ctx, case, held):
             tv, td = _rel_tols(epsx, n, dt, a_ * Vx + b_ * O.max_abs(vy) + O.max_abs(vz),
                                a_ * Ax + b_ * O.max_abs(y) + O.max_abs(z),
                                a_ * Dx + b_ * O.max_abs(dy) + O.max_abs(dz))
+            tv += (a_ + b_) * O.underflow_floor(epsx, n)
+            td += (a_ + b_) * O.underflow_floor(epsx, n)
             ev = float(np.max(np.abs(vz - (alpha * v + beta * vy))))
             ed = float(np.max(np.abs(dz - (alpha * d + beta * dy))))
             ctx.check(ev <= tv and ed <= td, 'rel.linearity', wit,
